@@ -2,6 +2,7 @@
   C05 — torn-tail recovery yields exactly the fully written prefix.
 -/
 import BS.Proofs.LastMeta
+import BS.Proofs.Reopen
 
 namespace BS.Props.C05
 open BS BS.Impl
@@ -72,5 +73,26 @@ example : Valid 2 [⟨5, [1, 2]⟩, ⟨70000, [3, 4]⟩] ∧ TailClean 2 [⟨5, 
   · intro x hx l hl
     simp at hx
     rcases hx with rfl | rfl <;> (simp [metaWriteLines, le8, leN] at hl; subst hl; decide)
+
+/-- **Through the whole API model: create, append anything, crash at ANY byte, reopen.**
+The data file is cut after any number `n` of bytes of its region, the index file is in any
+legitimate prior state; `builder.open` succeeds and yields a session whose history is exactly
+the completely written lines `take (linesWithin n)` of what was accepted: every read, count
+and accessor then answers for that prefix (C01, C02, C12 …), and the next append follows
+the acceptance rule relative to it (C03). -/
+theorem api_open_recovers_prefix (p : Nat) (hp : p ≤ u64Max) (hdr : Option Bytes)
+    (hH : (toText p ++ hdr.getD []).length ≤ 65535) (atts : List (Nat × Bytes)) (hts : ∀ a ∈ atts, a.1 < 2^64)
+    (hc : TailClean p (acceptAll p [] atts)) (hsize : (Spec.encode p (acceptAll p [] atts)).length < 2^64)
+    (n : Nat) (ix : Option Bytes) (hix : IndexState p (acceptAll p [] atts) ix)
+    (cb : Option Bool) (pOpt : Option Nat) (hpo : pOpt = none ∨ pOpt = some p)
+    (hOpt : Option Bytes) (hho : hOpt = none ∨ hOpt = some (hdr.getD [])) :
+    ∃ dir0 s0 dir1 s1, apiNew {} p hdr [] = (dir0, .ok (s0, hdr.getD [])) ∧
+      pushAll dir0 s0 atts = some (dir1, s1) ∧
+      ∀ data', data' = (dir1.main.data.map fun b => b.take ((seriesHdr p (hdr.getD [])).length + n)) →
+      ∃ dir2 s2, apiOpen { dir1 with main := { dir1.main with data := data', index := ix } } pOpt hOpt [] cb
+          = (dir2, .ok (s2, hdr.getD [])) ∧ s2.d.p = p ∧
+        SessInv (seriesHdr p (hdr.getD [])) ihdr dir2 s2
+          ((acceptAll p [] atts).take (Spec.linesWithin p (acceptAll p [] atts) n)) :=
+  reopen_after_any_history p hp hdr hH atts hts hc hsize n ix hix cb pOpt hpo hOpt hho
 
 end BS.Props.C05
